@@ -1,19 +1,28 @@
-"""Source of MANIFEST.json (tools/mkmanifest.py)."""
+"""Source of MANIFEST.json (tools/mkmanifest.py): every harness/props/cXX.py carries a literal `MANIFEST = {...}`;
+a property is claimed when it is listed in harness/claimed.txt (the lead edits that file)."""
+import ast
+import pathlib
+
+HERE = pathlib.Path(__file__).resolve().parent
 NOTES = ("All checks: ./check <id> --tier quick|thorough. Exit 0 = held, 1 = VIOLATION line(s), 2 = tool failure. "
          "Every check regenerates lean/DirectVerif/Gen/<id>.lean from /repo's working tree, rebuilds the property's theorem and "
          "bridge modules, audits axioms, runs the differential correspondence model-vs-implementation and the property oracle.")
 _ALL = [f"C{i:02d}" for i in range(1, 21)]
-CLAIMED = {
-    "C10": {
-        "text": "Lean 4 theorems over all sizes/parities: centre crop = central window of floor((n-s)/2) offset; pad places data at "
-                "floor((N-n)/2); pad followed by centre crop is the identity; F.pad pair order for any number of axes; bbox window "
-                "specification. Tied to the code by translated arithmetic (bridge lemmas closed by omega) and exact differential "
-                "correspondence on labelled tensors.",
-        "note": "Trusted: Lean kernel (+propext, Classical.choice, Quot.sound), the AST translator, the row-major lifting alongAxis "
-                "(validated by correspondence), torch slicing/F.pad semantics. k-space crop/pad equivalence is checked on the "
-                "implementation under FFT rounding tolerance, not proved.",
-        "technique": "Lean 4 proof (omega/list induction) + AST translation bridge + differential correspondence",
-    },
-}
-NOT_APPLICABLE = {p: "check under construction in this round (model and harness not yet committed); will be claimed once it is sound"
-                  for p in _ALL if p not in CLAIMED}
+_claimed = [l.split("#")[0].strip() for l in (HERE / "claimed.txt").read_text().split("\n")]
+_claimed = [c for c in _claimed if c]
+CLAIMED = {}
+for pid in _claimed:
+    src = (HERE / "props" / f"{pid.lower()}.py").read_text()
+    for node in ast.parse(src).body:
+        if isinstance(node, ast.Assign) and getattr(node.targets[0], "id", None) == "MANIFEST":
+            CLAIMED[pid] = ast.literal_eval(node.value)
+    assert pid in CLAIMED, f"{pid}: no MANIFEST literal in props module"
+_reasons = {}
+_r = HERE / "not_applicable.txt"
+if _r.exists():
+    for l in _r.read_text().split("\n"):
+        if l.strip() and not l.startswith("#"):
+            k, v = l.split(":", 1)
+            _reasons[k.strip()] = v.strip()
+NOT_APPLICABLE = {p: _reasons.get(p, "check under construction in this round (model and harness not yet committed); will be "
+                                     "claimed once it is sound") for p in _ALL if p not in CLAIMED}
